@@ -136,6 +136,19 @@ mut('drop-unread-container', 'UncompressedFile.cpp', [["        if ((position > 
 mut('nextcontainer-size-mismatch', 'UncompressedFile.cpp', [["            logContainer->uncompressedFile.resize(offset);\n            logContainer->uncompressedFileSize = offset;", "            logContainer->uncompressedFile.resize(offset);"]],
     ['C10'], ['B3|UncompressedFile::nextLogContainer'], 'buffer shrunk, size field not: later reads index past the buffer')
 
+mut('state-reset-on-read', 'UncompressedFile.cpp', [["        m_rdstate = std::ios_base::eofbit | std::ios_base::failbit;\n    }\n", "        m_rdstate = std::ios_base::eofbit | std::ios_base::failbit;\n    } else\n        m_rdstate = std::ios_base::goodbit;\n"]],
+    ['C08'], ['E4|UncompressedFile::read'], 'a later zero-length read erases the failure of an earlier short read')
+mut('container-position-default', 'UncompressedFile.cpp', [["            } else {\n                /* everything before the put position has been consumed and dropped */\n                logContainer->filePosition = m_tellp;\n            }\n", "            }\n"]],
+    ['C12'], ['P5|UncompressedFile::write'], 'new container chained from position 0 after the list was emptied')
+mut('producer-drops-old-data', 'File.cpp', [["    /* copy into uncompressedFile */\n    m_uncompressedFile.write(logContainer);\n", "    /* copy into uncompressedFile */\n    m_uncompressedFile.write(logContainer);\n\n    /* drop old data */\n    m_uncompressedFile.dropOldData();\n"]],
+    ['C07'], ['K7|m_uncompressedFile|read'], 'the inflating thread releases containers the decoding thread is about to seek back into')
+mut('timed-queue-wait', 'ObjectQueue.cpp', [["    /* wait for data */\n    tellpChanged.wait(lock, [&] {", "    /* wait for data */\n    tellpChanged.wait_for(lock, std::chrono::milliseconds(500), [&] {"]],
+    ['C07', 'C16', 'C06'], ['K2|ObjectQueue<ObjectHeaderBase>::read'], 'timeout treated as end of stream')
+mut('static-zero-buffer', 'AbstractFile.cpp', [["    std::vector<char> zero;\n    zero.resize(s);", "    static std::vector<char> zero;\n    if (zero.size() < static_cast<std::size_t>(s))\n        zero.resize(static_cast<std::size_t>(s));"]],
+    ['C14', 'C11'], ['G1|static-locals', 'Z1|skipp'], 'padding source shared by all threads without synchronisation')
+mut('factory-narrowed-switch', 'File.cpp', [["    switch (type) {\n    case ObjectType::UNKNOWN:", "    switch (static_cast<ObjectType>(static_cast<uint16_t>(type))) {\n    case ObjectType::UNKNOWN:"]],
+    ['C17'], ['D3|switch|operand'], '32-bit codes alias assigned 16-bit codes')
+
 # ------------------------------------------------------------------ benign refactorings (must stay silent)
 ALL_LAYOUT = ['C01', 'C02', 'C03', 'C10', 'C14']
 ben('reorder-size-terms', 'AppText.cpp', [["        sizeof(source) +\n        sizeof(reservedAppText1) +", "        sizeof(reservedAppText1) +\n        sizeof(source) +"]], ALL_LAYOUT)
